@@ -211,6 +211,9 @@ pub fn examine_texts(text_a: &str, text_b: &str, reference: Option<prog::RefRun>
             if let Some(rep) = rep.as_deref_mut() {
                 rep.count(&format!("rejected-though-reference-ran:{v}"));
             }
+            if v != "Parsing" && v != "IO" {
+                return Some((format!("valid-program-rejected:{v}"), "B".into(), format!("the checker refuses a program the generator builds well-typed and the reference runs to completion: {v}")));
+            }
             if let Ok(path) = std::env::var("VMON_DUMP_REJECTED") {
                 use std::io::Write;
                 if let Ok(mut f) = std::fs::OpenOptions::new().create(true).append(true).open(format!("{path}.ran")) {
@@ -417,12 +420,13 @@ pub fn run(cfg: &Cfg, rep: &mut Report, spec: &Spec) {
             continue;
         }
         reported += 1;
-        // shrink while the same class persists
+        // shrink while the same class persists (not for a refused program: deleting parts of it makes ill-typed programs,
+        // which are refused for a reason)
         let cls = class.clone();
-        let small = prog::shrink(&body, |c| examine(c, spec, None).is_some_and(|(k, _, _)| k == cls), 300);
+        let small = if cls.starts_with("valid-program-rejected") { body.clone() } else { prog::shrink(&body, |c| examine(c, spec, None).is_some_and(|(k, _, _)| k == cls), 300) };
         let (class2, which2, detail2) = examine(&small, spec, None).unwrap_or((class.clone(), which.clone(), detail.clone()));
         let cons = prog::constructs(&small).join(",");
-        let key = if class2 == "closure-creation-folding-error" || class2.starts_with("cell-content-after:") { format!("{}:{class2}", spec.prop.to_lowercase()) } else { format!("{}:{class2}:{{{cons}}}", spec.prop.to_lowercase()) };
+        let key = if class2 == "closure-creation-folding-error" || class2.starts_with("cell-content-after:") || class2.starts_with("valid-program-rejected:") { format!("{}:{class2}", spec.prop.to_lowercase()) } else { format!("{}:{class2}:{{{cons}}}", spec.prop.to_lowercase()) };
         let small_a = prog::program_text(&small, Mode::Literal);
         let small_b = prog::program_text(&small, Mode::Hidden);
         let payload = format!(
@@ -482,10 +486,10 @@ pub fn replay(cfg: &Cfg, payload: &str, rep: &mut Report, spec: &Spec) {
     rep.count("programs");
     if let Some((class, _, _)) = examine(&body, spec, Some(rep)) {
         let cls = class.clone();
-        let small = prog::shrink(&body, |c| examine(c, spec, None).is_some_and(|(k, _, _)| k == cls), 300);
+        let small = if cls.starts_with("valid-program-rejected") { body.clone() } else { prog::shrink(&body, |c| examine(c, spec, None).is_some_and(|(k, _, _)| k == cls), 300) };
         let (class2, which2, detail2) = examine(&small, spec, None).unwrap_or((class, String::new(), String::new()));
         let cons = prog::constructs(&small).join(",");
-        let key = if class2 == "closure-creation-folding-error" || class2.starts_with("cell-content-after:") { format!("{}:{class2}", spec.prop.to_lowercase()) } else { format!("{}:{class2}:{{{cons}}}", spec.prop.to_lowercase()) };
+        let key = if class2 == "closure-creation-folding-error" || class2.starts_with("cell-content-after:") || class2.starts_with("valid-program-rejected:") { format!("{}:{class2}", spec.prop.to_lowercase()) } else { format!("{}:{class2}:{{{cons}}}", spec.prop.to_lowercase()) };
         let small_a = prog::program_text(&small, Mode::Literal);
         rep.violation(&key, &format!("[{which2}] {detail2} :: {}", truncate(&small_a[crate::ast::PRELUDE.len()..], 500)), "diff", payload);
     }
